@@ -213,6 +213,9 @@ class SqlalchemyRender:
                     # sqlalchemy's __truediv__ turns integer division into true division
                     # (sqlite: a / (b + 0.0), postgres: a / CAST(b AS NUMERIC)); keep the operator as written
                     col = arg0.op('/', precedence=8)(arg1)
+                elif op == '+':
+                    # sqlalchemy compiles + with a string-typed left operand to ||
+                    col = sa.sql.elements.BinaryExpression(arg0, arg1, sa.sql.operators.add)
                 else:
                     col = getattr(arg0, method)(arg1)
                 # sqlalchemy negates is_()/is_not() to themselves unless the operand is None:
